@@ -197,6 +197,19 @@ func runC20(c *Ctx) {
 					}
 				}
 			}
+			// the sign correction must test the remainder of the very value that is divided
+			var rem *ssa.BinOp
+			for _, b := range fn.Blocks {
+				for _, in := range b.Instrs {
+					if bo, ok := in.(*ssa.BinOp); ok && bo.Op == token.REM {
+						rem = bo
+					}
+				}
+			}
+			if quo != nil && rem != nil && quo.X != rem.X {
+				c.R.Bad(rule, key, cfg, p.Pos(rem.Pos()), "the floor correction takes the remainder of a different value than the one that is divided (e.g. seconds without the zone offset): instants whose two values fall on different sides of a day boundary land on the wrong day")
+				continue
+			}
 			switch {
 			case quo == nil:
 				c.R.Ok(rule, key, cfg, p.Pos(fn.Pos()), "no truncating division of the second count")
@@ -312,6 +325,46 @@ func runC20(c *Ctx) {
 			c.R.Ok(rule, "IPv4", cfg, p.Pos(toIP.Pos()), o1+" "+w1+" on both sides")
 		} else {
 			c.R.Bad(rule, "IPv4", cfg, p.Pos(toIP.Pos()), sprintf("ToIP uses %s %s but ToIPv4 uses %s %s: the helpers do not invert each other", o1, w1, o2, w2))
+		}
+	}()
+
+	// ---- C20.widen
+	rule = "C20.widen"
+	c.R.Rule(rule, "the wide-integer constructors from unsigned 64-bit values (…FromUInt64) never route the value through a signed type: a uint64 -> int/int64 conversion sign-extends inputs with the top bit set")
+	func() {
+		n := 0
+		for _, fn := range p.Funcs() {
+			if pkgOf(fn) == nil || pkgOf(fn).Path() != core.PkgProto || !strings.Contains(fn.Name(), "FromUInt64") {
+				continue
+			}
+			n++
+			bad := false
+			for f := range core.StaticReach(fn, 2) {
+				if f != fn && !strings.Contains(f.Name(), "FromUInt64") && !strings.Contains(f.Name(), "UInt") {
+					// helper reached with a converted value: check the conversion at the call site in fn
+				}
+				_ = f
+			}
+			for _, b := range fn.Blocks {
+				for _, in := range b.Instrs {
+					cv, ok := in.(*ssa.Convert)
+					if !ok {
+						continue
+					}
+					from, ok1 := cv.X.Type().Underlying().(*types.Basic)
+					to, ok2 := cv.Type().Underlying().(*types.Basic)
+					if ok1 && ok2 && from.Info()&types.IsUnsigned != 0 && to.Info()&types.IsInteger != 0 && to.Info()&types.IsUnsigned == 0 {
+						bad = true
+						c.R.Bad(rule, core.FuncName(fn), cfg, p.Pos(cv.Pos()), "the unsigned input is converted to a signed integer on its way into the wide value: inputs >= 2^63 become negative (high word all ones)")
+					}
+				}
+			}
+			if !bad {
+				c.R.Ok(rule, core.FuncName(fn), cfg, p.Pos(fn.Pos()), "no signed detour")
+			}
+		}
+		if n == 0 {
+			c.R.Unk(rule, "population", cfg, "", "no …FromUInt64 constructors found")
 		}
 	}()
 
